@@ -666,10 +666,55 @@ func genBanded(w *vh.W, mode string) jcase {
 	return c
 }
 
+// genMultiBlock: one key gets a run of 7-12 consecutive timestamps in ONE file, which a single-file
+// CompactFull (ppb=3) re-writes as several 3-point blocks; later snapshots overwrite a few points around a
+// block boundary (a newer file's block overlapping the tail of one older block and the head of the next);
+// then the key is read ascending and descending over the whole range and over ranges that start one or two
+// blocks earlier, so that the affected blocks are reached through KeyCursor.Next and not by the initial seek.
+func genMultiBlock(w *vh.W) jcase {
+	r := w.Rng
+	var c jcase
+	ser, fld := r.IntN(nSeries), r.IntN(nFields)
+	key := ser*nFields + fld
+	n := int64(7 + r.IntN(6))
+	val := int64(1)
+	st := jstep{Op: "write"}
+	for t := int64(0); t < n; t++ {
+		st.Points = append(st.Points, jpoint{Series: ser, Field: fld, T: t, V: val})
+		val++
+	}
+	c.Steps = append(c.Steps, st, jstep{Op: "snap"}, jstep{Op: "compact", I: 0, N: 1})
+	for g, ng := 0, 1+r.IntN(2); g < ng; g++ {
+		b := int64(3 * (1 + r.IntN(int(n/3)))) // a block boundary: blocks are [0,2] [3,5] ...
+		lo, hi := b-1-int64(r.IntN(2)), b+int64(r.IntN(2))
+		st := jstep{Op: "write"}
+		for t := lo; t <= hi && t < n; t++ {
+			st.Points = append(st.Points, jpoint{Series: ser, Field: fld, T: t, V: 100*int64(g+1) + t})
+		}
+		c.Steps = append(c.Steps, st, jstep{Op: "snap"})
+		if r.IntN(3) == 0 {
+			c.Steps = append(c.Steps, jstep{Op: "reopen"})
+		}
+	}
+	for _, asc := range []bool{true, false} {
+		c.Steps = append(c.Steps, jstep{Op: "read", Key: key, Lo: models.MinNanoTime, Hi: models.MaxNanoTime, Asc: asc})
+		lo := int64(r.IntN(4))
+		c.Steps = append(c.Steps, jstep{Op: "read", Key: key, Lo: lo, Hi: n - 1 - int64(r.IntN(3)), Asc: asc})
+	}
+	if r.IntN(2) == 0 {
+		c.Steps = append(c.Steps, jstep{Op: "compact", I: 0, N: 2, Fast: r.IntN(2) == 0},
+			jstep{Op: "read", Key: key, Lo: models.MinNanoTime, Hi: models.MaxNanoTime, Asc: true})
+	}
+	return c
+}
+
 func gen(w *vh.W, mode string) jcase {
 	r := w.Rng
 	if r.IntN(4) == 0 {
 		return genBanded(w, mode)
+	}
+	if r.IntN(8) == 0 {
+		return genMultiBlock(w)
 	}
 	var c jcase
 	withReopen := r.IntN(3) == 0 // such histories contain no failed snapshots (see C02's finding F15)
@@ -705,6 +750,16 @@ func gen(w *vh.W, mode string) jcase {
 		case x < 38:
 			k := 1 + r.IntN(4)
 			st := jstep{Op: "write"}
+			if r.IntN(8) == 0 {
+				// burst: 13-40 values for ONE key with many repeated timestamps in one cache generation
+				// (above 12 elements Go's sort.Sort is no longer an insertion sort: dedup must stay stable)
+				ser, fld := r.IntN(nSeries), r.IntN(nFields)
+				for i, kk := 0, 13+r.IntN(28); i < kk; i++ {
+					st.Points = append(st.Points, jpoint{Series: ser, Field: fld, T: int64(r.IntN(int(tdom))), V: int64(r.IntN(1000))})
+				}
+				c.Steps = append(c.Steps, st)
+				continue
+			}
 			for i := 0; i < k; i++ {
 				st.Points = append(st.Points, jpoint{Series: r.IntN(nSeries), Field: r.IntN(nFields), T: rt(), V: int64(r.IntN(1000))})
 			}
